@@ -331,7 +331,12 @@ class Canon:
                 if a in ARR:
                     return patom('%s(%s)' % (f[1], ARR[a][0]))
             if f in (S('max'), S('min')) and len(t[2]) == 2:
-                return patom('%s(%s, %s)' % (f[1], self.pstr(t[2][0]), self.pstr(t[2][1])))
+                pa, pb = self.poly(t[2][0]), self.poly(t[2][1])
+                if pa == pb:
+                    return pa
+                if is_pconst(pa) and is_pconst(pb):
+                    return pconst((max if f[1] == 'max' else min)(pconstval(pa), pconstval(pb)))
+                return patom('%s(%s)' % (f[1], ', '.join(sorted([pshow(pa), pshow(pb)]))))
             if f in (S('int'), S('float')) and len(t[2]) == 1:
                 return self.poly(t[2][0])
             raise Unknown('call ' + show(t)[:80])
@@ -339,6 +344,9 @@ class Canon:
             return patom(t[1])
         if k == 'ite':
             return patom('ite(%s, %s, %s)' % (self.pred(t[1]), self.pstr(t[2]), self.pstr(t[3])))
+        if k == 'bool':
+            # `x or default` / `x and y` on numbers: value-level boolean operator (0 is falsy)
+            return patom('(' + (' %s ' % t[1]).join(self.pstr(x) for x in t[2]) + ')')
         raise Unknown('scalar term ' + show(t)[:80])
 
     def pairname(self, base):
@@ -780,6 +788,8 @@ class RefParser:
         return '%s[%s]' % (n.value.id, pshow(self.poly(n.slice)))
 
     def pred(self, n):
+        if isinstance(n, ast.Call) and isinstance(n.func, ast.Name):
+            return '%s(%s)' % (n.func.id, ', '.join(pshow(self.poly(a)) for a in n.args))
         assert isinstance(n, ast.Compare) and len(n.ops) == 1
         d = psub(self.poly(n.left), self.poly(n.comparators[0]))
         op = {ast.Eq: '==', ast.NotEq: '!=', ast.Lt: '<', ast.LtE: '<=', ast.Gt: '>', ast.GtE: '>='}[type(n.ops[0])]
@@ -805,7 +815,7 @@ class RefParser:
         if isinstance(n, ast.UnaryOp) and isinstance(n.op, ast.USub):
             return [Mono(pneg(m.coef), m.var, m.sumvar, m.preds) for m in self.lin(n.operand)]
         if isinstance(n, ast.Call) and isinstance(n.func, ast.Name) and n.func.id in ('sum', 'sumk'):
-            sv = 'q' if n.func.id == 'sum' else "k'"
+            sv = 'q' if n.func.id == 'sum' else 'k' 
             preds = [self.pred(a) for a in n.args[1:]]
             return [Mono(m.coef, m.var, sv, tuple(preds)) for m in self.lin(n.args[0])]
         return [Mono(self.poly(n))]
